@@ -61,6 +61,8 @@ def _matrix(rng, m, n, scale):
         J = [[0.0] * n for _ in range(m)]
     elif kind == "ints":
         J = [[float(rng.randint(-3, 3)) * scale for _ in range(n)] for _ in range(m)]
+    if rng.random() < 0.15:
+        J[rng.randrange(m)][rng.randrange(n)] = -0.0  # a negative zero
     return J
 
 
@@ -83,6 +85,7 @@ def _agg_pool(rng, m):
             a["w"] = gen_weights(rng, m)
         if k == "GradDrop":
             a["leak"] = [rng.random() for _ in range(m)] if rng.random() < 0.5 else None
+            a["f"] = rng.choice([None, None, "square", "smoothstep"])
         if k == "Krum":
             if m < 3:
                 continue
@@ -135,7 +138,7 @@ def generate(rng, tier, index):
         mk = m if k < 3 else rng.choice([1, 2, 3, 4, 5, 6, 7])
         dk = dtype if k < 2 else rng.choice([dtype, other])
         n = rng.choice([1, 2, 3, 5, 8] if mk > 1 else [1, 3, 6])
-        mats.append({"m": mk, "dtype": dk, "J": _matrix(rng, mk, n, 10 ** rng.uniform(-3, 3))})
+        mats.append({"m": mk, "dtype": dk, "J": _matrix(rng, mk, n, 10 ** rng.uniform(-3, 3)), "form": rng.choice(["plain", "plain", "noncontig", "requires_grad"])})
     steps = []
     faults_on = index % 2 == 1  # fault-free and fault-injecting configurations are separate batches
     n_steps = rng.randint(8, 16)
@@ -207,7 +210,9 @@ def execute(scn):
     dtype0 = DT[scn["dtype"]]
     m = scn["m"]
     pool = [make_agg(a, dtype0) for a in scn["pool"]]
-    mats = [torch.tensor(M["J"], dtype=DT[M["dtype"]]) for M in scn["mats"]]
+    from ..aggs import matrix_form
+
+    mats = [matrix_form(torch.tensor(M["J"], dtype=DT[M["dtype"]]), M.get("form", "plain")) for M in scn["mats"]]
     row_counts = set()
     dtypes_seen = set()
     stats, events, viols, sets = {}, [], [], {}
@@ -236,7 +241,7 @@ def execute(scn):
             stats["api_calls"] = stats.get("api_calls", 0) + 1
             if _bytes(J) != before:
                 viols.append({"clause": "input_modified", "step": si, "details": {"agg": kind, "op": "call"}, "key": {"agg": kind}})
-                mats[ji] = torch.tensor(scn["mats"][ji]["J"], dtype=dtype)
+                mats[ji] = matrix_form(torch.tensor(scn["mats"][ji]["J"], dtype=dtype), scn["mats"][ji].get("form", "plain"))
             if exc is not None:
                 viols.append({"clause": "clean_call_raised", "step": si, "details": {"agg": a_spec, "exc": exc, "matrix": scn["mats"][ji]["J"], "dtype": scn["mats"][ji]["dtype"]}, "key": {"agg": kind, "exc": exc.split(":")[0]}})
                 events.append([si, "call", kind, "raised"])
